@@ -100,6 +100,11 @@ func keyLabel(k string) string {
 			return "any" + strconv.Itoa(j)
 		}
 	}
+	for j, p := range malformedKeys {
+		if k == p {
+			return "bad" + strconv.Itoa(j)
+		}
+	}
 	if k == "" {
 		return "-"
 	}
@@ -109,7 +114,24 @@ func keyLabel(k string) string {
 type reqSpec struct {
 	Method string `json:"method"`
 	Key    string `json:"key,omitempty"`
+	// Skip: the request carries X-Skip: 1 and the scenario's custom Config.Next exempts it.
+	Skip bool `json:"skip,omitempty"`
 }
+
+const skipHeader = "X-Skip"
+
+// malformedKeys are rejected by the default KeyHeaderValidate (exactly 36 characters). A request
+// that the middleware must not touch (safe method, exempted by Next) is unaffected by what its
+// key header contains.
+var malformedKeys = []string{
+	"abc",
+	"abcdef00-0000-4000-8000-00c0ffee000",   // 35
+	"abcdef00-0000-4000-8000-00c0ffee000a0", // 37
+	"not a key at all, just some text that happens to be in the header, longer than a UUID ................",
+	"0",
+}
+
+func wellFormed(k string) bool { return len(k) == 36 }
 
 func safeMethod(m string) bool {
 	switch m {
@@ -120,12 +142,14 @@ func safeMethod(m string) bool {
 }
 
 // keyed: the request is subject to the middleware (unsafe method and a key).
-func (r reqSpec) keyed() bool { return r.Key != "" && !safeMethod(r.Method) }
+func (r reqSpec) keyed() bool { return r.Key != "" && !safeMethod(r.Method) && !r.Skip }
 
 func (r reqSpec) class() string {
 	switch {
 	case r.keyed():
 		return "keyed"
+	case r.Skip:
+		return "next-exempted"
 	case r.Key == "":
 		return "keyless"
 	default:
@@ -165,6 +189,9 @@ func (sc *scenario) desc() string {
 			sb.WriteByte(' ')
 		}
 		sb.WriteString(r.Method + ":" + keyLabel(r.Key))
+		if r.Skip {
+			sb.WriteString("/skip")
+		}
 	}
 	fmt.Fprintf(&sb, " keep=%v base=%d", sc.Keep != nil, sc.ShapeBase)
 	if sc.FailFirst {
@@ -393,6 +420,13 @@ func newRun(sc *scenario, plan faultPlan, s *sched.Sched) *run {
 	if sc.AnyKey {
 		cfg.KeyHeaderValidate = func(string) error { return nil }
 	}
+	for _, q := range sc.Reqs {
+		if q.Skip {
+			// custom Next: exempts marked requests in addition to the default rule
+			cfg.Next = func(c fiber.Ctx) bool { return c.Get(skipHeader) == "1" || fiber.IsMethodSafe(c.Method()) }
+			break
+		}
+	}
 	if !sc.MemStore {
 		r.vs = vstore.New()
 		r.vs.Yield = func(p string) { r.boundary(strings.TrimPrefix(p, "storage."), p) }
@@ -506,6 +540,9 @@ func (r *run) send(wi, ri int) {
 	hdr := []drive.H{{K: reqHeader, V: strconv.Itoa(ri)}}
 	if rq.Key != "" {
 		hdr = append(hdr, drive.H{K: keyHeader, V: rq.Key})
+	}
+	if rq.Skip {
+		hdr = append(hdr, drive.H{K: skipHeader, V: "1"})
 	}
 	resp := r.d.Do(&drive.Req{Method: rq.Method, URI: "/", Hdr: hdr})
 	r.clock++
